@@ -26,13 +26,13 @@ ENV = dict(os.environ, CARGO_NET_OFFLINE='true', CARGO_TARGET_DIR=TARGET, RUSTFL
 #  profiles: harness build profiles the property needs
 P = {
  'C01': dict(families=[('core', 120, 2500, 120), ('mixed', 120, 2500, 120), ('entry', 60, 1200, 120)], aspects='RSD', profiles=['debug'],
-             theorems=['C01_step_refines', 'C01_run_refines']),
+             theorems=['C01_step_refines', 'C01_run_refines', 'C01_len']),
  'C02': dict(families=[('core', 120, 2000, 120), ('entry', 60, 1000, 120), ('big', 1, 2, 20000)], big_thorough=120000, aspects='SHA', profiles=['release'],
              theorems=['C02_key_adding_bounded', 'C02_lookup_removal_constant']),
  'C03': dict(families=[('core', 150, 2500, 120), ('iter', 60, 1000, 120), ('big', 1, 2, 12000)], big_thorough=120000, aspects='SA', profiles=['release'],
-             theorems=['C03_step', 'C03_bound', 'C03_two_tables']),
+             theorems=['C03_step', 'C03_two_tables']),
  'C04': dict(families=[('capacity', 150, 2500, 120), ('core', 100, 1500, 120), ('clone', 40, 600, 120)], aspects='RSA', profiles=['debug', 'release'],
-             theorems=['C04_capacity_ge_len', 'C04_headroom_invariant', 'C04_fill']),
+             theorems=['C04_capacity_ge_len', 'C04_headroom_invariant', 'C04_full_implies_no_resize', 'C04_sizing_keeps_headroom']),
  'C05': dict(families=[('mixed', 120, 2000, 120), ('entry', 80, 1500, 120), ('iter', 80, 1500, 120)], aspects='RS', profiles=['debug', 'release'],
              theorems=['C05_no_fault', 'C05_cursor_agrees']),
 }
@@ -92,8 +92,9 @@ def audit(prop, theorems):
             problems.append(f'theorem {t} is not stated in Prop_{prop}.v')
         if t not in printed:
             problems.append(f'no Print Assumptions for {t}')
-        if not re.search(r'Check\s+' + t + r'\s*:', src) and not re.search(r'Check\s+\(' + t, src):
-            problems.append(f'statement of {t} is not pinned by a Check')
+        m = re.search(r'Theorem\s+' + t + r'\b(.*?)Proof\.\s*exact\s+(\w+)\.\s*Qed\.', src, flags=re.S)
+        if not m:
+            problems.append(f'{t} is not closed by a bare `exact`')
     if closed < len(printed):
         problems.append('Print Assumptions reports axioms: ' + ' | '.join(a.strip().replace('\n', ' ')[:300] for a in axioms_sections))
     for t in printed:
